@@ -335,7 +335,7 @@ Theorem handshake_connects_and_syncs s c e d :
     sy_cls (sstep s (SHandshake 0)) = [c'] /\
     one_client (sstep s (SHandshake 0)) c' (d_name d) /\ cl_in_ctl c' = [] /\ cl_in_blob c' = [] /\
     net_synced (cl_mirror c') d /\ find_dev (sstep s (SHandshake 0)) e = Some d /\
-    cl_ctl c' = cl_ctl c /\ cl_blob c' = cl_blob c.
+    cl_ctl c' = cl_ctl c /\ cl_blob c' = cl_blob c /\ one_device (sstep s (SHandshake 0)) e d.
 Proof.
   intros [Cls Net Up Mir I1 I2 Rt Dv Oof Diff He1 He2] D Vis.
   set (dn := d_name d).
@@ -405,7 +405,7 @@ Proof.
   exists cB.
   assert (Mc : cl_mirror cB = feed [] (map wire (defs_of d))).
   { unfold cB, cA. cbn [cl_mirror with_mirror]. unfold c3, c2, add_blob, both, c1. cbn [cl_mirror with_inboxes with_up]. rewrite Mir. reflexivity. }
-  split; [reflexivity|]. split; [|split; [reflexivity|split; [reflexivity|split; [|split; [apply find_dev_one; reflexivity|split; reflexivity]]]]].
+  split; [reflexivity|]. split; [|split; [reflexivity|split; [reflexivity|split; [|split; [apply find_dev_one; reflexivity|split; [reflexivity|split; [reflexivity|constructor; reflexivity]]]]]]].
   - constructor; cbn [sy_cls sy_r with_r]; try reflexivity; try exact Net; try exact Diff.
     + unfold policy_of, r4. cbn [blob sy_r with_r r3 s3 s2 set_client s1 r2 alookup devices clients]. unfold aset. cbn [aremove alookup].
       rewrite ?Nbc, ?Ncb, ?N.eqb_refl. cbn [alookup aremove]. rewrite ?Nbc, ?Ncb, ?N.eqb_refl. cbn [alookup].
